@@ -14,11 +14,16 @@ RULE = ('complete enumeration of: (rt) every length 0..80 x 4 content patterns x
         'padded/truncated short last line x upper/lower case x a comment/blank/whitespace line inserted at every '
         'line position; (cli) -f -x and -a -x over generated PELs. A case is non-trivial when the data is non-empty '
         '(distinct by data+layout+format).')
-ASSUMPTIONS = ['comment lines that begin with hex digits, CRLF line ends and the spacing of non-default layouts '
-               'are outside the statement and not generated']
+ASSUMPTIONS = ['a comment line is a line that breaks the line format somewhere (a literal character of the template missing, '
+               'or a character that is neither a hex digit nor padding where a digit belongs); lines that are a valid '
+               'prefix of the format are short data lines, not comments',
+               'CRLF line ends and the spacing of non-default layouts are outside the statement and not generated']
 
-FMT_NAMES = ['bmc', 'prebmc']
-COMMENTS = ['# comment 12', '// 00 11 22', '; AB', '', '   ', '\t']
+FMT_NAMES = ['bmc', 'prebmc', 'default']
+COMMENTS = ['# comment 12', '// 00 11 22', '; AB', '', '   ', '\t',
+            # lines that start like data (hex digits) but break the line format further on: still comments
+            'Date: 2024-01-01', 'Address  Data', 'Begin of dump', '12:30:45 start of dump', 'Feb 12 10:11:12 dump taken',
+            'FACE:  BEEFCAFE-- drawer dump --', 'DEADBEEF', '00000000     CAFEBABE--comment', 'ab-cd', 'C0 FF EE!']
 
 
 def bounds(tier):
@@ -28,7 +33,7 @@ def bounds(tier):
 
 
 def plan(tier, seed):
-    chunks = [{'k': 'rt_len'}, {'k': 'io', 'fmt': 0}, {'k': 'io', 'fmt': 1}, {'k': 'cli'}]
+    chunks = [{'k': 'rt_len'}, {'k': 'io', 'fmt': 0}, {'k': 'io', 'fmt': 1}, {'k': 'io', 'fmt': 2}, {'k': 'cli'}]
     for lo in range(0, 256, 32):
         chunks.append({'k': 'rt_byte', 'lo': lo, 'hi': lo + 32})
     if tier == 'quick':
@@ -109,7 +114,8 @@ def eval_case(case):
                 break
     elif k == 'io':
         from io_drawer.dump import HEX_DUMP_LINE_FORMATS
-        fmt = HEX_DUMP_LINE_FORMATS[case['fmt']]
+        from pel.hexdump import DEFAULT_LINE_FORMAT
+        fmt = (list(HEX_DUMP_LINE_FORMATS) + [DEFAULT_LINE_FORMAT])[case['fmt']]
         data = bytes.fromhex(case['data'])
         lines = rhex.render(data, fmt, case['pad'], case['upper'])
         if case.get('ins') is not None:
@@ -258,7 +264,7 @@ def run_chunk(chunk):
                             for pos in range(nlines + 1):
                                 for c in range(len(COMMENTS)):
                                     do(dict(base, ins=[pos, c], nl=bool((pos + c) % 2)), n > 0)
-                                    if n % 8 == 1:
+                                    if n % 8 == 1 and f < 2:
                                         do(dict(base, ins=[pos, c], nl=True, via_file=True), True)
     elif k == 'cli':
         from mc import pelgen
